@@ -1555,8 +1555,15 @@ class PackBasedObjectStore(PackCapableObjectStore, PackedObjectContainer):
             loose_obj: ShaFile | None = self._get_loose_object(oid)
             if loose_obj is not None:
                 yield loose_obj
-            elif not allow_missing:
-                raise KeyError(oid)
+                continue
+            # A concurrent repack may have moved the object from a loose file
+            # into a new pack after the packs were scanned above: look again
+            # (get_raw, which does that) before calling it missing.
+            try:
+                yield self[oid]
+            except KeyError:
+                if not allow_missing:
+                    raise KeyError(oid)
 
     def get_unpacked_object(
         self, sha1: bytes, *, include_comp: bool = False
